@@ -52,4 +52,7 @@ PositionOK(offset_, line_, len, lfBefore, lower, upper) ==
 
 Edits == {"delete", "replace", "insert"}
 Stuff == {"notoken", "word", "punct"}
+\* where in the assignment: the t-th token, or a token the parser reaches only after it has committed itself (no way back
+\* to another alternative: the value after DEFAULT), or the last token
+Anchors == {"nth", "after_default", "last"}
 =============================================================================
